@@ -446,7 +446,7 @@ def analyse_vacuity(res, vac, r, extra_args=None):
         def solo(item):
             n, o = item
             lines = [('' if (oo[0] == 'probe' and k + 1 != n) else t) for k, (t, oo) in enumerate(gen.lines)]
-            path = os.path.join(BUILD, res['unit'], '%s_vac_%d.rs' % (res['unit'], n))
+            path = os.path.join(os.path.dirname(res['generated']) if res.get('generated') else os.path.join(BUILD, res['unit']), '%s_vac_%d.rs' % (res['unit'], n))
             open(path, 'w').write('\n'.join(lines) + '\n')
             rr = vlib.run_verus(path, extra_args)
             try:
